@@ -432,6 +432,18 @@ func NewDecoder(n int, sep string, r io.Reader) (sts.PayloadDecoder, error) {
 	}()
 	jr := json.NewDecoder(pr)
 	err = jr.Decode(&binReader.meta)
+	if err == nil && n > 0 && jr.InputOffset() != int64(n) {
+		// The announced length is what separates the header from the first
+		// part's bytes; if the JSON value ends elsewhere, part data would be
+		// read from the wrong offset
+		err = fmt.Errorf(
+			"payload metadata is %d bytes long but %d were announced",
+			jr.InputOffset(), n)
+	}
+	if err != nil {
+		// Release the copying goroutine
+		_ = pr.CloseWithError(err)
+	}
 	if sep != "" {
 		for _, part := range binReader.meta {
 			part.Name = filepath.Join(strings.Split(part.Name, sep)...)
